@@ -340,10 +340,9 @@ func expected(st *kState, npIPs []net.IP) map[string]*expFE {
 	out := map[string]*expFE{}
 	add := func(e *expFE) { out[e.key] = e }
 	for _, s := range st.live() {
-		sel, filtered := s.selected()
+		sel, _ := s.selected()
 		etp := s.etpLocal && (s.typ != tClusterIP || len(s.ext) > 0)
 		knownZero, knownSelect := s.knownShapes()
-		_ = filtered
 		var allReady []kEp
 		for _, e := range s.eps {
 			if e.ready {
